@@ -262,7 +262,7 @@ func (e *c20Exec) progress(op int) {
 	e.mu.Unlock()
 }
 
-func firstDiff(a, b []byte) string {
+func c20FirstDiff(a, b []byte) string {
 	n := len(a)
 	if len(b) < n {
 		n = len(b)
@@ -297,7 +297,7 @@ func (e *c20Exec) crossDecode(op int, enc, x []byte) {
 	if err != nil {
 		e.find(op, "cross-mismatch", "independent decoder rejects the codec's output: "+err.Error())
 	} else if !bytes.Equal(got, x) {
-		e.find(op, "cross-mismatch", "independent decoder reads something else: "+firstDiff(got, x))
+		e.find(op, "cross-mismatch", "independent decoder reads something else: "+c20FirstDiff(got, x))
 	}
 }
 
@@ -325,14 +325,14 @@ func (e *c20Exec) crossEncode(op int, x []byte) {
 	case err != nil:
 		e.find(op, "cross-mismatch", "Decode rejects a spec-conformant stream from an independent encoder: "+err.Error())
 	case !bytes.Equal(got, x):
-		e.find(op, "cross-mismatch", "Decode of a spec-conformant stream from an independent encoder: "+firstDiff(got, x))
+		e.find(op, "cross-mismatch", "Decode of a spec-conformant stream from an independent encoder: "+c20FirstDiff(got, x))
 	}
 }
 
 func (e *c20Exec) checkKept(op int, kept []c20Kept) {
 	for _, k := range kept {
 		if !bytes.Equal(k.live, k.copy) {
-			e.find(op, "earlier-output-modified", "a slice returned earlier ("+k.what+") changed: "+firstDiff(k.live, k.copy))
+			e.find(op, "earlier-output-modified", "a slice returned earlier ("+k.what+") changed: "+c20FirstDiff(k.live, k.copy))
 		}
 	}
 }
@@ -394,7 +394,7 @@ func (e *c20Exec) runOps(which []int) {
 			e.find(i, "rt-error", "Decode(Encode(x)) returns an error: "+err.Error())
 		case !bytes.Equal(dec, x):
 			r.Status = "mismatch"
-			e.find(i, "rt-mismatch", "Decode(Encode(x)) != x: "+firstDiff(dec, x))
+			e.find(i, "rt-mismatch", "Decode(Encode(x)) != x: "+c20FirstDiff(dec, x))
 		default:
 			r.Status = "ok"
 			r.OutCap = cap(dec)
